@@ -146,6 +146,16 @@ def view_schema(package, byte_order):
                groups=[G("w", 10, dimensionType="dimCnt", fields=[F("a", 1, "uint16")], blockLength=130),
                        G("after", 11, fields=[F("b", 1, "uint8")])],
                data=[D("d", 20, "varStr8")]))
+    # m8: levels whose LAST non-constant field is of each kind (the last field
+    # has its own generated cursor accessors), m9: data without groups (the
+    # first-data accessor path)
+    m.append(G("lasts", 8, fields=[F("x", 1, "uint8"), F("e", 2, "e8")],
+               groups=[G("ge", 10, fields=[F("a", 1, "uint8"), F("z", 2, "e16")]),
+                       G("gs", 11, fields=[F("a", 1, "uint8"), F("z", 2, "s32")]),
+                       G("gc", 12, fields=[F("a", 1, "uint8"), F("z", 2, "point")], blockLength=15),
+                       G("gn", 13, fields=[F("a", 1, "uint8"), F("z", 2, "u32opt"), F("k", 3, "cconst")])]))
+    m.append(G("dataonly", 9, fields=[F("x", 1, "uint16")], blockLength=3,
+               data=[D("d1", 1, "varStr8"), D("d2", 2), D("d3", 3, "var16")]))
     return S
 
 
